@@ -17,7 +17,7 @@ From Coq Require Import List Arith Permutation Floats.
 From OV Require Import Base.Panic Base.Arith Inst.QcInst Inst.FloatInst Model.Complex.
 From OV Require Import Model.Vector Model.ParDot Model.Matrix Model.Solve Model.Banded Model.Tridiag Model.Sparse Model.Iter Model.Mesh Model.Poly Model.Roots.
 From OV Require Proofs.Matrix Proofs.LUPrim Proofs.LUQc Proofs.SolveBase Proofs.Solve Proofs.Banded Proofs.BandedComplete Proofs.Tridiag Proofs.SparseBase Proofs.SparseViews Proofs.MeshBase Proofs.MeshStore.
-From OV Require Proofs.GuardsModelBase Proofs.GuardsModelVec Proofs.GuardsModelMat Proofs.GuardsModelSolve Proofs.GuardsModelBand Proofs.GuardsModelTri Proofs.GuardsModelSparse Proofs.GuardsModelIter Proofs.GuardsModelMesh Proofs.GuardsModelPoly Proofs.GuardsModelNative Proofs.GuardsModelFamilies.
+From OV Require Proofs.GuardsModelBase Proofs.GuardsModelVec Proofs.GuardsModelMat Proofs.GuardsModelSolve Proofs.GuardsModelBand Proofs.GuardsModelTri Proofs.GuardsModelSparse Proofs.GuardsModelIter Proofs.GuardsModelMesh Proofs.GuardsModelPoly Proofs.GuardsModelNative Proofs.GuardsModelLegacy Proofs.GuardsModelFamilies.
 Import ListNotations.
 Local Open Scope nat_scope.
 (* used by the non-vacuity Examples only: `panics_with k r = true` iff r = Panic k (keeps the evaluated goals small) *)
@@ -1559,6 +1559,35 @@ Print Assumptions entry_contract_roots_float.
 Example entry_contract_roots_float_nonvacuous :
   g_poly_roots_degree 3 = false /\ 1 <= length [@mkC AF 2%float 0%float; @mkC AF 0%float 0%float; @mkC AF 1%float 0%float].
 Proof. vm_compute. split; [reflexivity|]. repeat constructor. Qed.
+
+(* ---- the contracts are not vacuous: the two pre-repair functions with a guard / range defect (set_col_legacy: the guard compared the column
+   with the number of rows; tmul_legacy: no n = 1 branch) violate them on concrete rational inputs, the repaired functions meet them there ---- *)
+Theorem entry_contract_refutes_legacy :
+  (exists (m : matrix AQ) (col : nat) (v : list AQ),
+     Matrix.wf m /\
+     g_mat_set_col (Z.of_nat (rows m)) (Z.of_nat (cols m)) (Z.of_nat col) (Z.of_nat (length v)) = false /\
+     set_col_legacy m col v = Panic Guard /\ is_ok (set_col m col v) = true) /\
+  (exists (m : matrix AQ) (col : nat) (v : list AQ),
+     Matrix.wf m /\
+     g_mat_set_col (Z.of_nat (rows m)) (Z.of_nat (cols m)) (Z.of_nat col) (Z.of_nat (length v)) = true /\
+     set_col_legacy m col v = Panic Index /\ set_col m col v = Panic Guard) /\
+  (exists (t : tridiag AQ) (v : list AQ),
+     Tridiag.wfT t /\
+     1 <= tn t /\ g_tri_mul_vec (Z.of_nat (tn t)) (Z.of_nat (length v)) = false /\ tmul_legacy t v = Panic Index /\ is_ok (tmul t v) = true).
+Proof. exact GuardsModelLegacy.entry_contract_refutes_legacy_lemma. Qed.
+Check entry_contract_refutes_legacy :
+  (exists (m : matrix AQ) (col : nat) (v : list AQ),
+     Matrix.wf m /\
+     g_mat_set_col (Z.of_nat (rows m)) (Z.of_nat (cols m)) (Z.of_nat col) (Z.of_nat (length v)) = false /\
+     set_col_legacy m col v = Panic Guard /\ is_ok (set_col m col v) = true) /\
+  (exists (m : matrix AQ) (col : nat) (v : list AQ),
+     Matrix.wf m /\
+     g_mat_set_col (Z.of_nat (rows m)) (Z.of_nat (cols m)) (Z.of_nat col) (Z.of_nat (length v)) = true /\
+     set_col_legacy m col v = Panic Index /\ set_col m col v = Panic Guard) /\
+  (exists (t : tridiag AQ) (v : list AQ),
+     Tridiag.wfT t /\
+     1 <= tn t /\ g_tri_mul_vec (Z.of_nat (tn t)) (Z.of_nat (length v)) = false /\ tmul_legacy t v = Panic Index /\ is_ok (tmul t v) = true).
+Print Assumptions entry_contract_refutes_legacy.
 
 (* ---- the model functions the entry contracts speak about ARE the functions in the source of this run: for 46 of the 62 entries the model
    function is equal, for all arguments, to the function regenerated from /repo/src on this run by the Rust-subset -> Gallina translator
